@@ -127,7 +127,8 @@ var vlRequests = []JobResources{
 
 // H_C06_enqueue(req, conf): req indexes the (floating-point, hence concrete)
 // request table; conf bit 0 = vmem semaphore configured, bit 1 = process
-// semaphore configured.
+// semaphore configured, bit 2 = the vmem limit (4 GB) is below the memory limit
+// (8 GB) instead of above it (16 GB).
 func H_C06_enqueue(req int, conf int) {
 	vlWrites, vlTimers, vlExecs, vlErrorsExist, vlLastOutcome = nil, nil, 0, false, -1
 	const maxCores, maxMemGB = 4, 8
@@ -142,6 +143,10 @@ func H_C06_enqueue(req int, conf int) {
 	mgr.memMBSem = &ResourceSemaphore{Formatter: nop, maxSize: maxMemGB * 1024, curSize: maxMemGB * 1024}
 	if conf&1 != 0 {
 		mgr.maxVmemMB = 16 * 1024
+		if conf&4 != 0 {
+			// an address-space limit below the memory limit
+			mgr.maxVmemMB = 4 * 1024
+		}
 		mgr.vmemMBSem = &ResourceSemaphore{Formatter: nop, maxSize: mgr.maxVmemMB, curSize: mgr.maxVmemMB}
 	}
 	if conf&2 != 0 {
@@ -167,6 +172,7 @@ func H_C06_enqueue(req int, conf int) {
 		case 3:
 			room = procsPerJob + maxCores + 1
 		}
+		verifAssert(room <= s.maxSize, "C12: a job asking for more of a resource than its limit is clamped to the limit (its request can be granted)")
 		verifAssume(verifAll(held >= 0, held <= s.maxSize-room))
 		s.reserved = held
 		vlPre[i] = held
